@@ -246,6 +246,53 @@ func c12Budget(c *rt.C) {
 		c.Sig("manifest-failure/%s/%s/delta=%v", victim, outcome, delta)
 		os.RemoveAll(dir)
 	}
+	// close(2) failures: every write succeeds, but when one shard file is closed the kernel reports that
+	// its data could not be written back (emulated: the file is truncated and the descriptor closed
+	// behind the library's back right before its own Close, so that Close returns an error)
+	for _, victimIdx := range []int{0, 1 + r.Intn(8), 15} {
+		dir := filepath.Join(c.Tmp, fmt.Sprintf("cl%d", victimIdx))
+		victim := filepath.Join(dir, "data", fmt.Sprintf("shard-%d", victimIdx))
+		var fmu sync.Mutex
+		fds := map[string]*os.File{}
+		hit := false
+		nitro.VerifSetFileWrite(func(fd *os.File, path string, p []byte) (int, error) {
+			fmu.Lock()
+			fds[path] = fd
+			fmu.Unlock()
+			return fd.Write(p)
+		})
+		nitro.VerifSetHook(func(id int, arg unsafe.Pointer) {
+			if id == nitro.VpFileBeforeClose && *(*string)(arg) == victim {
+				fmu.Lock()
+				fd := fds[victim]
+				fmu.Unlock()
+				if fd != nil {
+					if st, err := fd.Stat(); err == nil && st.Size() > 0 {
+						fd.Truncate(st.Size() / 2)
+						fd.Close()
+						hit = true
+					}
+				}
+			}
+		})
+		err := d.store(r, dir, conc)
+		nitro.VerifSetFileWrite(nil)
+		nitro.VerifSetHook(nil)
+		c.Evals(1)
+		outcome := "error-returned"
+		if !hit {
+			outcome = "not-reached"
+		} else if err == nil {
+			oc, detail := d.tryLoadDir(dir, 2)
+			outcome = "success+" + oc
+			if oc != "exact" {
+				c.Violate("silent-partial-backup/close/"+oc, fmt.Sprintf("close(2) of data/shard-%d failed (its data was lost) but StoreToDisk returned nil; loading the directory gives: %s %s", victimIdx, oc, detail),
+					map[string]interface{}{"failed_close": victim, "delta": delta, "stored_items": len(d.target.Want), "mem": mem})
+			}
+		}
+		c.Sig("close-failure/%s/delta=%v", outcome, delta)
+		os.RemoveAll(dir)
+	}
 	c.Count("byte_budgets_tried", int64(len(budgets)))
 	c.Sample(map[string]interface{}{"kind": "byte-budget", "mem": mem, "delta": delta, "stored_items": len(d.target.Want), "disk_block_size": block, "total_shard_bytes": total, "budgets": len(budgets), "concurrency": conc})
 }
@@ -497,7 +544,7 @@ func init() {
 	rt.Register(&rt.Prop{
 		ID: "C12", Level: "fault_enumeration",
 		Technique: "fault injection with runtime monitoring: (a) write failures through the shard-file write interposer (byte budgets; disk-full manifests) and hook-free through RLIMIT_FSIZE, with an injected-fault ledger; (b) crash images captured under one mutex before every file-system mutation of StoreToDisk and each fed to LoadFromDisk",
-		Rule: "case index mod 5: 0,1 = byte budgets: a reference run measures the bytes written to shard files, then budgets {0, total-1, total-4, total-5, every DiskBlockSize boundary and boundary-1 sampled, random} make every later write fail with a short write + ENOSPC (every third run the manifests cannot be written either), plus runs in which exactly one manifest file (nitro.json, files.json, checksums.json and their delta counterparts) cannot be written while every shard write succeeds; if a failure was consumed and StoreToDisk returns nil the directory must load to exactly the stored snapshot. 2 = the same through RLIMIT_FSIZE (real write(2) failing with EFBIG, no hooks). 3,4 = crash images: the directory is copied before every shard write, before/after every manifest write, before the final flush, before and after the close of every shard file and when the body of StoreToDisk has finished, plus derived images with an empty manifest; every image must load with an error or exactly the stored snapshot. Databases 0-3000 items, DiskBlockSize 64..64Ki, concurrency 1-8, delta on/off (with churn so delta shards are written), Go/poison memory. " +
+		Rule: "case index mod 5: 0,1 = byte budgets: a reference run measures the bytes written to shard files, then budgets {0, total-1, total-4, total-5, every DiskBlockSize boundary and boundary-1 sampled, random} make every later write fail with a short write + ENOSPC (every third run the manifests cannot be written either), plus runs in which exactly one manifest file (nitro.json, files.json, checksums.json and their delta counterparts) cannot be written while every shard write succeeds, and runs in which the close(2) of one shard file fails after its data was lost; if a failure was consumed and StoreToDisk returns nil the directory must load to exactly the stored snapshot. 2 = the same through RLIMIT_FSIZE (real write(2) failing with EFBIG, no hooks). 3,4 = crash images: the directory is copied before every shard write, before/after every manifest write, before the final flush, before and after the close of every shard file and when the body of StoreToDisk has finished, plus derived images with an empty manifest; every image must load with an error or exactly the stored snapshot. Databases 0-3000 items, DiskBlockSize 64..64Ki, concurrency 1-8, delta on/off (with churn so delta shards are written), Go/poison memory. " +
 			"evaluations = faulted backups + images loaded; distinct = (fault class, outcome, delta, block size) tuples",
 		Assumptions: []string{"process death, not power loss: bytes handed to write(2) survive, bytes still in the bufio buffer do not", "the image 'manifest exists but is empty' is derived (ioutil.WriteFile opens with O_TRUNC and writes inside the standard library)", "backups go into an empty directory, as the property states"},
 		Cases: func(t string) int {
